@@ -126,7 +126,7 @@ def check(src, rep):
     thorough = rep.tier == "thorough"
     allp = [set(i for i in range(n) if (mask >> i) & 1) for mask in range(1 << n)]
     patterns = allp if thorough else [p_ for p_ in allp if len(p_) <= 2 or len(p_) == n]
-    PAY = b"\x01payload"
+    PAY = b"\n \x01pay load\t\r\n"  # begins and ends with octets a text normalisation (strip, splitlines, decode) would touch: decoders must get it verbatim
     fnp, fnm, fnn = C.methods["decode_message_payload"], C.methods["decode_message"], C.methods["previous_success_decoder"]
     init_fn = C.methods.get("__init__")
 
@@ -281,6 +281,24 @@ def check(src, rep):
             rep.ok("R6", "first-octet sets", f"Aidon bodies start with {sorted(fo['aidon'])}, Kaifa with {sorted(fo['kaifa'])}, Kamstrup with {sorted(fo['kamstrup'])}: disjoint from Aidon")
     except ImportError:
         rep.notes.append("R6 not evaluated (E-CONS first_octets unavailable)")
+    # the text decoder must not accept what holds no data set at all: P1 comes before the bare-body decoders in the table, so a P1 decoder that returns
+    # an (empty) dictionary for content without data sets takes binary messages away from their own decoder
+    dcf, pcf = M.funcs.get("dlde.decode_p1_readout_content"), M.funcs.get("dlde.parse_p1_readout_content")
+    if dcf is None or pcf is None:
+        raise Undecided("anchor vanished: dlde.decode_p1_readout_content / parse_p1_readout_content")
+    for content in (b"\x01\x02(\n", b"binary\x00", b"\r\n"):
+        A6 = AbsEval(M)
+        A6.func_hooks[("dlde", pcf.node.name)] = lambda args, kw: []
+        r6 = A6.apply(dcf, [content])
+        if r6[0] in ("undecided", "branch"):
+            rep.undecide(f"R6 decode_p1_readout_content outside the interpreted subset for content without data sets: {r6[1]}")
+            break
+        if r6[0] == "value":
+            rep.violation("R6", "dlde.decode_p1_readout_content", "accepts-empty", "the P1 content decoder accepts content in which the parser finds no data set (it returns a dictionary instead of raising "
+                          "ValueError): tried before the bare-body decoders, it takes such binary messages away from the decoder that would decode them", src.file("dlde"), dcf.node.lineno, witness=repr(content))
+            break
+    else:
+        rep.ok("R6", "P1 decoder rejects empty parses", "decode_p1_readout_content raises when the block parser finds no data set")
     rep.floor("rotation cells", rep.analysed.get("rotation_cells", 0), 2 * n)
 
 
